@@ -51,6 +51,7 @@ func init() {
 			{Name: "handler-closes-and-lingers", Weight: 1, Bubble: true, Run: c08CloseLingers},
 			{Name: "registration-while-a-handler-blocks", Weight: 1, Bubble: true, Run: c08PendingRegistration},
 			{Name: "handler-blocked-forwarding-to-another-connection", Weight: 1, Bubble: true, Run: c08Forward},
+			{Name: "handler-blocked-forwarding-to-an-association", Weight: 1, Bubble: true, Run: c08ForwardSctp},
 			{Name: "sweep-schedules", Bubble: true, Run: c08Sweep, SweepN: c08SweepN, QuickSweep: true, Exhaustive: true,
 				SweepNote: "2 connections x 2 messages: every interleaving of the two connections' step sequences (deliver, deliver, release, release in both per-connection orders; 70 x 4) x every choice of which of the 4 handlers park (16): 4 480 schedules, each followed by the drain and the history oracle"},
 			{Name: "serve-yield", Weight: 3, Bubble: true, Run: func(e *Env) {
@@ -744,5 +745,108 @@ func c08Forward(e *Env) {
 	case <-stuck:
 	default:
 		e.Fail("C08/handler-stuck", "B's peer reads again and the forward from A's handler has not returned")
+	}
+}
+
+// c08ForwardSctp: the relay again, towards a multi-stream association. The handler of a request
+// on connection A forwards raw bytes through the Conn of association B (Conn.Write) and gets
+// stuck in the association's send. B's peer meanwhile sends complete messages on its streams:
+// they are dispatched.
+func c08ForwardSctp(e *Env) {
+	t := e.T
+	e.TrustWait = false
+	lis := newSimListener(e)
+	mux := diam.NewServeMux()
+	var mu sync.Mutex
+	var entered []string
+	var connB diam.Conn
+	stuck := make(chan struct{}, 1)
+	fwdBytes := RefMsg{Cmd: 901, Flags: 0x80, HbH: 500, E2E: 500, AVPs: []RefAVP{{Code: avpSimOctets, Data: marker(0, 0, 200, 7)}}}.Bytes()
+	mux.HandleFunc("ALL", func(c diam.Conn, m *diam.Message) {
+		_ = c.Context()
+		who := "?"
+		if len(m.AVP) > 0 {
+			who = string(m.AVP[0].Data.Serialize())
+		}
+		mu.Lock()
+		entered = append(entered, who)
+		to := connB
+		mu.Unlock()
+		if who == "A-forward" && to != nil {
+			to.Write(fwdBytes)
+			select {
+			case stuck <- struct{}{}:
+			default:
+			}
+		}
+	})
+	srv := &diam.Server{Handler: mux, Dict: simDict()}
+	go srv.Serve(lis)
+	a := newSimConn(e, "A", drawAddr(t, 3868), drawAddr(t, 41001))
+	lis.Connect(a)
+	be := newSimSCTP(e)
+	msc := diam.NewVerifSCTPConn(be)
+	defer diam.VerifSCTPRelease(msc)
+	cb, err := diam.NewConn(msc.(net.Conn), "sim", mux, simDict())
+	if err != nil {
+		e.Harness("NewConn: %v", err)
+	}
+	mu.Lock()
+	connB = cb
+	mu.Unlock()
+	req := func(tag string, hbh uint32) []byte {
+		return RefMsg{Cmd: 900, Flags: 0x80, HbH: hbh, E2E: hbh, AVPs: []RefAVP{{Code: avpSimOctets, Data: []byte(tag)}}}.Bytes()
+	}
+	defer func() {
+		be.Resume()
+		be.End(io.EOF)
+		a.EndRead(io.EOF, false)
+		lis.Close()
+		e.Quiesce()
+	}()
+	be.Feed(sctpChunk{uint16(t.Draw(4)), req("B-hello", 1)})
+	e.Quiesce()
+	be.ArmWriteFault(&WriteFault{Kind: "stall"})
+	a.Deliver(req("A-forward", 2))
+	e.Quiesce()
+	e.Probe("handler-stuck-in-a-send-on-an-association")
+	e.NonTrivial()
+	n := t.Range(1, 3)
+	var want []string
+	for k := 0; k < n; k++ {
+		tag := fmt.Sprintf("B-req%d", k)
+		want = append(want, tag)
+		st := uint16(t.Draw(4))
+		raw := req(tag, uint32(10+k))
+		if t.Chance(1, 2) {
+			cut := t.Range(1, len(raw)-1)
+			be.Feed(sctpChunk{st, raw[:cut]})
+			e.Quiesce()
+			be.Feed(sctpChunk{st, raw[cut:]})
+		} else {
+			be.Feed(sctpChunk{st, raw})
+		}
+		e.Act("feed", "%s on stream %d while A's handler is stuck in a send on B", tag, st)
+		e.Quiesce()
+	}
+	mu.Lock()
+	got := append([]string{}, entered...)
+	mu.Unlock()
+	var gotB []string
+	for _, g := range got {
+		if strings.HasPrefix(g, "B-req") {
+			gotB = append(gotB, g)
+		}
+	}
+	if strings.Join(gotB, ",") != strings.Join(want, ",") {
+		e.Fail("C08/blocked-by-other-connection/forward-sctp", "the handler of connection A is blocked (stuck in a send on association B); B's peer sent %v, dispatched on B: %v", want, gotB)
+		return
+	}
+	be.Resume()
+	e.Quiesce()
+	select {
+	case <-stuck:
+	default:
+		e.Fail("C08/handler-stuck", "the association sends again and the forward from A's handler has not returned")
 	}
 }
